@@ -376,3 +376,27 @@ def n2(ctx):
 
 
 RULES = [d1, d2, d2f, d3, d4, n2]
+
+
+@rule("D5", doc="Language::weak_shape has no shortcut: every shape it returns is the result of the numbering pass (weak_shape_inplace / weak_shape_impl) over a copy of the node")
+def d5(ctx):
+    crate = ctx.lib()
+    ws = [b for b in crate.by_name.get("weak_shape", []) if b.kind != "Closure" and (b.file or "").endswith("lang.rs")]
+    if len(ws) != 1:
+        raise mir.AnchorMissing("Language::weak_shape (default method in lang.rs)", "found %d" % len(ws))
+    b = ws[0]
+    defs = b.defs().get(0, [])
+    ctx.floor("return definitions of Language::weak_shape", len(defs), 1)
+    for d in defs:
+        r = b.role_of_rvalue(d["rv"]) if d["kind"] == "assign" else ("call", d["call"].callee.name if d["call"].callee else "?", "", [b.role_of_operand(a) for a in d["call"].args], d["bb"])
+        ok = role_mentions_call(r, "weak_shape_inplace") or role_mentions_call(r, "weak_shape_impl")
+        if isinstance(strip_role(r), tuple) and strip_role(r)[0] == "agg":
+            ops = strip_role(r)[2]
+            ok = ok and all(role_mentions_call(o, "weak_shape_inplace") or role_mentions_call(o, "weak_shape_impl") or role_mentions_call(o, "clone") for o in ops) and any(role_mentions_call(o, "weak_shape_inplace") or role_mentions_call(o, "weak_shape_impl") for o in ops)
+        ctx.check(ok, "shape-from-numbering-pass:%d" % d["bb"], "weak_shape returns (numbered copy, bijection of the numbering pass)",
+                  "Language::weak_shape has a return path (%s) that does not come from the numbering pass: a node that merely *looks* numbered ($0, $1, .. by name) is not canonical when a number is shared between a binder and another binder or a free occurrence — alpha-equivalent nodes get different shapes" % role_str(r)[:120],
+                  where_of(b, d["bb"], d.get("line")))
+    C.check_only_allowed_skips(ctx, b, [c for c in b.calls if c.callee and c.callee.name in ("weak_shape_inplace", "weak_shape_impl")][0].bb if [c for c in b.calls if c.callee and c.callee.name in ("weak_shape_inplace", "weak_shape_impl")] else 0, [], "weak-shape", "running the numbering pass")
+
+
+RULES.append(d5)
